@@ -205,17 +205,23 @@ def r6(ctx):
         good = False
         why = ''
         if v is not None:
-            cv = core(v)
-            m = [x for x in walk(cv) if isinstance(x, tuple) and x and x[0] == 'call' and x[1].endswith('Iterator::map')]
-            if m and has(m[0][2][0], ('field', ('arg', 2, ANY), cfg_fld)):
-                clo = closure_of(ctx, m[0][2][1])
-                crv = ret_values(clo)
-                good = len(crv) == 1 and match(core(crv[0][0]), Call('ok_or_else', Call('Vocab::token_to_id', ('upvar', 0, ANY), ('arg', 2, ANY)), ANY)) \
-                    and m[0][2][1][3] and nosite(core(m[0][2][1][3][0])) == sv
-                why = show_in(clo, crv[0][0]) if crv else ''
-            src, names = chain_names(cv)
-            if [n for n in names if n in ('enumerate', 'position', 'zip')]:
-                good = False
+            from analysis.seq import seq_of, item as _item
+            from analysis.sym import last_seg
+
+            def _lookup(e):
+                # the id or its Option -> Result conversion (`.ok_or_else(..)`, `.ok_or(..)`, `.expect(..)`): the error path ends construction
+                e = core(e)
+                while e[0] == 'call' and last_seg(e[1]) in ('ok_or_else', 'ok_or', 'expect') and e[2]:
+                    e = core(e[2][0])
+                return e
+            is_sv2 = Pred(lambda t: nosite(core(t)) == sv or match(core(t), Call('Vocab::build', ANY, ANY)) or
+                          nosite(core(init_value(b, t))) == sv or match(core(init_value(b, t)), Call('Vocab::build', ANY, ANY)))
+            segs = seq_of(ctx.facts, b, v)
+            # one id per configured token, in list order: the id the special vocabulary has for that token
+            good = segs is not None and len(segs) == 1 and segs[0].kind == 'each' and not segs[0].conds and \
+                match(core(segs[0].src), ('field', ('arg', 2, ANY), cfg_fld)) and \
+                match(_lookup(segs[0].elem), Call('Vocab::token_to_id', is_sv2, _item(0)))
+            why = '(built as %s)' % [repr(x)[:160] for x in segs or ()]
         ctx.require(good, b, 'frame-ids|' + cfg_fld, '%s = special_vocab.token_to_id(tok) for each configured %s token' % (fld, cfg_fld),
                     '%s is %s %s' % (fld, show_in(b, v) if v is not None else '?', why))
 
@@ -263,3 +269,80 @@ def r7(ctx):
         ctx.require(not chars, b, 'byte-unit', 'BPE token_to_id measures the token in bytes', 'BPE token_to_id counts characters (`%s`, line %d): a merge token that is ONE multi-byte '
                     'character is answered with the value of its first byte instead of 256 + merge id' % ((chars[0].callee_res() or '').rsplit('::', 1)[-1] if chars else '', chars[0].span['line'] if chars else 0),
                     chars[0].span if chars else None)
+
+
+def _id_const_tests(body, xpat):
+    """guards that compare a value matching `xpat` with an integer constant: [(guard, N)] where the guarded edge (or its negation)
+    separates ids below N from the rest (`x < K` -> K, `x <= K` -> K + 1, `x >= K` -> K, `x > K` -> K + 1)"""
+    from analysis.sym import edge_guards
+    out = []
+    for g in edge_guards(body):
+        t, pol = g.atom()
+        if pol is None:
+            continue
+        c = core(t)
+        if c[0] != 'bin' or c[1] not in ('Lt', 'Le', 'Ge', 'Gt'):
+            continue
+        for x, k, flip in ((c[2], c[3], False), (c[3], c[2], True)):
+            kc = core(k)
+            if match(core(x), xpat) and kc[0] == 'const' and len(kc) > 2 and isinstance(kc[2], int):
+                op = c[1] if not flip else {'Lt': 'Gt', 'Le': 'Ge', 'Ge': 'Le', 'Gt': 'Lt'}[c[1]]
+                out.append((g, kc[2] + (1 if op in ('Le', 'Gt') else 0)))
+    return out
+
+
+@rule('C04', 'R-C04-8', 'T11 SIBLING (one byte boundary in the byte tokenizer)',
+      'the byte tokenizer uses ids 0..=255 for the bytes in every function: id_to_token and de_tokenize split on "fits in a byte" '
+      '(`id < 256`, `u8::try_from(id)`), get_vocab lists 0..=u8::MAX, vocab_size counts 256 and the special ids start at 256 '
+      '(R-C04-2): a site that draws the line at 255 disagrees with the others about the id 255')
+def r8(ctx):
+    from rules.common import byte_boundary_tests, range_bounds
+    from analysis.seq import seq_of
+    n = 0
+    # de_tokenize: the id is the element the loop over token_ids yields
+    from_iteration = Pred(lambda u: any(isinstance(x, tuple) and x and x[0] == 'call' and x[1].endswith('::next') for x in walk(u)))
+    for fn, xp in ((TOK + 'id_to_token', ('arg', 2, ANY)), (TOK + 'de_tokenize', from_iteration)):
+        b = body_for(ctx, fn, BYTE)
+        tests = _id_const_tests(b, xp)
+        good = byte_boundary_tests(b, xp)
+        for g, N in tests:
+            n += 1
+            ctx.require(N == 256, b, 'byte-boundary|' + fn.rsplit('::', 1)[-1], 'byte tokenizer %s: ids below 256 are bytes' % fn.rsplit('::', 1)[-1],
+                        'byte tokenizer %s draws the line between byte ids and special ids at %d instead of 256: the id %d is treated as a special token here and as '
+                        'a byte elsewhere' % (fn.rsplit('::', 1)[-1], N, min(N, 255)), b.blocks[g.block].term.span)
+        ctx.require(bool(good), b, 'byte-test|' + fn.rsplit('::', 1)[-1], 'byte tokenizer %s splits on "the id fits in a byte"' % fn.rsplit('::', 1)[-1],
+                    'byte tokenizer %s has no `id < 256` / u8::try_from(id) test' % fn.rsplit('::', 1)[-1])
+        n += 1
+    gv = body_for(ctx, TOK + 'get_vocab', BYTE)
+    rb = None
+    for t in gv.terms('call'):
+        for a in t.args:
+            for x in walk(nosite(sym(gv, a))):
+                r = range_bounds(x) if isinstance(x, tuple) and x and x[0] in ('agg', 'call') else None
+                if r is not None and rb is None:
+                    rb = r
+    ctx.require(rb is not None and rb[0] == 0 and rb[1] == 256, gv, 'vocab-bytes', 'byte tokenizer get_vocab lists the byte tokens 0..=255',
+                'byte tokenizer get_vocab lists the byte tokens over %s' % (rb,))
+
+
+@rule('C04', 'R-C04-9', 'T14 EFFECT (no state change inside a debug assertion)',
+      'no vocabulary / token-table function of src/tokenization.rs changes state inside a debug_assert!: the expression of a '
+      'debug assertion is not evaluated in release builds (the shipped wheel), so `debug_assert!(vocab.insert(id, ..).is_none())` '
+      'leaves the listed vocabulary empty there while vocab_size and the lookups still describe all tokens')
+def r9(ctx):
+    from rules.common import debug_only_mutations, debug_only_blocks
+    n = regions = 0
+    for b in ctx.facts.bodies:
+        if b.file() != 'src/tokenization.rs' or b.span['exp'] or b.path in ctx.facts.inlined_paths:
+            continue
+        n += 1
+        ctx.stats['bodies_inspected'].add(b.path)
+        if debug_only_blocks(b):
+            regions += 1
+        for t, r in debug_only_mutations(b):
+            ctx.fail(b, 'debug-only-mutation|' + norm_path(b.path).rsplit('::', 1)[-1] + '|' + (t.callee_res() or '').rsplit('::', 1)[-1],
+                     '%s: `%s` on `%s` (line %d) runs only inside a debug assertion: in a release build the call is compiled out and the state it was '
+                     'meant to build is missing' % (norm_path(b.path), (t.callee_res() or '').rsplit('::', 2)[-1], show_in(b, r), t.span['line']), t.span)
+    if n < 50:
+        raise AnchorMissing('bodies of src/tokenization.rs (found %d)' % n)
+    ctx.ok(None, '%d bodies of src/tokenization.rs inspected, %d with debug-only regions, no state change inside them' % (n, regions))
